@@ -15,6 +15,7 @@ import Driver.CliLts
 import Driver.KeyAccess
 import Driver.Lts
 import Driver.Lex
+import Driver.ReaderGo
 open Driver
 
 /-- the handler chain: add one line per driver module. -/
@@ -29,7 +30,8 @@ def handlers : List (String → String → Option String) := [
   handleCliLts,
   handleKeyAccess,
   handleLts,
-  handleLex
+  handleLex,
+  handleReaderGo
 ]
 
 def handle (line : String) : String :=
